@@ -298,4 +298,41 @@ def Memo.run {β : Type} (compute : Policy → β) : Memo β → List Policy →
   | _, [] => []
   | m, p :: ps => (Memo.read compute m p).1 :: Memo.run compute (Memo.read compute m p).2 ps
 
+/-! ### C16 on a batch of targets: `mask` reduces the NaN pattern over the batch, `fill` is per element
+
+`settings.observation_nan_policy._get_observed(labels, event_shape)` = `~any(isnan(labels.reshape(-1, *event)), dim=0)`
+(an entry counts as observed iff it is observed in EVERY batch element) is what the `mask` branches use;
+the `fill` branches use `torch.isnan(self.train_labels)`, which keeps the batch dimension: element `b` is
+conditioned on its own pattern `obs b`. -/
+
+section nanBatch
+variable {B : Nat}
+
+/-- `_get_observed` on a batch: observed iff observed in every batch element. -/
+def obsUnion (obs : Fin B → Fin n → Bool) : Fin n → Bool := fun i => (List.finRange B).all fun b => obs b i
+
+variable [Field α] [DecidableEq α]
+
+/-- Element `b` of the batched predictive mean under `fill`: its OWN pattern `obs b`. -/
+def predMeanFillBatch (A : Fin B → DMat n n α) (r : Fin B → DMat n 1 α) (mt : Fin B → DMat s 1 α)
+    (Kts : Fin B → DMat s n α) (obs : Fin B → Fin n → Bool) (c c' : α) (b : Fin B) : Option (DMat s 1 α) :=
+  (meanCacheFill (A b) (r b) (obs b) c).map fun a => predMeanFill (mt b) (Kts b) (obs b) a c'
+
+/-- Element `b` of the batched predictive covariance under `fill`: its own pattern. -/
+def predCovarFillBatch (Ktt : Fin B → DMat s s α) (Kts : Fin B → DMat s n α) (A : Fin B → DMat n n α)
+    (obs : Fin B → Fin n → Bool) (b : Fin B) : Option (DMat s s α) :=
+  predCovarFill (Ktt b) (Kts b) (A b) (obs b)
+
+/-- Element `b` of the batched predictive mean under `mask`: the pattern reduced over the batch. -/
+def predMeanMaskBatch (A : Fin B → DMat n n α) (r : Fin B → DMat n 1 α) (mt : Fin B → DMat s 1 α)
+    (Kts : Fin B → DMat s n α) (obs : Fin B → Fin n → Bool) (b : Fin B) : Option (DMat s 1 α) :=
+  (meanCacheMask (A b) (r b) (obsUnion obs)).map fun a => predMeanMask (mt b) (Kts b) (obsUnion obs) a
+
+/-- Element `b` of the batched predictive covariance under `mask`: the pattern reduced over the batch. -/
+def predCovarMaskBatch (Ktt : Fin B → DMat s s α) (Kts : Fin B → DMat s n α) (A : Fin B → DMat n n α)
+    (obs : Fin B → Fin n → Bool) (b : Fin B) : Option (DMat s s α) :=
+  predCovarMask (Ktt b) (Kts b) (A b) (obsUnion obs)
+
+end nanBatch
+
 end ExactGP
